@@ -121,6 +121,16 @@ func genAlign(t *rapid.T, name string) float32 {
 func genCase(t *rapid.T) Case {
 	w, h := genPos(t, "vw"), genPos(t, "vh")
 	dx, dy := genPos(t, "dx"), genPos(t, "dy")
+	if rapid.IntRange(0, 9).Draw(t, "perdim") == 0 {
+		// each of the four sizes of a magnitude of its own (a needle-shaped viewBox in a target
+		// that is a needle the other way): 24 decades per size
+		e := func(l string) float32 { return float32(math.Pow(10, rapid.Float64Range(-12, 12).Draw(t, l))) }
+		w, h, dx, dy = e("pd.w"), e("pd.h"), e("pd.dx"), e("pd.dy")
+		if rapid.Bool().Draw(t, "pd.opposite") {
+			k := e("pd.k")
+			w, h, dx, dy = 1/k, k, k*float32(rapid.Float64Range(0.5, 2).Draw(t, "pd.a")), 1/k
+		}
+	}
 	if rapid.IntRange(0, 9).Draw(t, "whole") == 0 {
 		// four whole numbers of about the same bit width (1..24 bits, all exact in
 		// float32): pixel targets and integer viewBoxes whose products pass 2^16,
